@@ -109,6 +109,9 @@ func hpackErrClass(err error) string {
 	return "WErr EOther"
 }
 
+// abortRun is set once a call hung; the part functions stop generating cases.
+var abortRun bool
+
 // guarded runs f under recover() with a watchdog; a panic or a hang is reported as an error string.
 func guarded(f func() error) (err error) {
 	done := make(chan error, 1)
@@ -124,6 +127,9 @@ func guarded(f func() error) (err error) {
 	case e := <-done:
 		return e
 	case <-time.After(5 * time.Second):
+		// the stuck goroutine cannot be stopped (and may keep allocating): the run records the
+		// failure and winds down instead of starting more cases
+		abortRun = true
 		return fmt.Errorf("HANG: no result within 5s")
 	}
 }
